@@ -613,10 +613,17 @@ func switchNud(p *parser, t *token) *token {
 	for {
 		if p.Token.Symbol == "case" {
 			c := p.Advance("case")
-			c.Append(p.Expression(0))
+			exprs := plural(p.Expression(0))
 			p.Advance(":")
-			c.Append(getCase(p))
-			cases.Append(c)
+			body := getCase(p)
+			// case a, b: is one clause per expression with the same body; the
+			// compiler compares exactly one value per clause
+			for _, e := range exprs.Tokens {
+				cc := symAtPos(c.Pos, "case")
+				cc.Append(e)
+				cc.Append(body)
+				cases.Append(cc)
+			}
 		} else if p.Token.Symbol == "default" {
 			c := p.Advance("default")
 			p.Advance(":")
